@@ -72,12 +72,19 @@ class UniverseDB:
 # CPU budget of the oracle: C0 + C*n^2 seconds, n = max(len(raw), len(expanded text), total length of the wiki database's
 # page names and texts: the template pages are part of the input).  Calibrated on the
 # unchanged tree (60 000 inputs up to 5 000 chars: max 0.6 s, i.e. > 5x headroom everywhere).
+# Wiki database term: the nested parses that pages of the database cause through re-parsing tags are bounded in number by the code
+# (core.MAX_PARSE_DEPTH, core.MAX_NESTED_WORK = 5000 depth-weighted parses), each costs time linear in the page text it parses, so the work is
+# <= const * (database size) with a large constant: BUDGET_DB seconds per database character (measured worst 0.005 s/char on cycles that
+# re-parse themselves 2-3 times per level; unbounded growth such as 2^40 nested parses exceeds any such budget).
 BUDGET_C0 = 3.0
 BUDGET_C = 2e-6
+BUDGET_DB = 0.02
 
 
-def budget(n):
-    return BUDGET_C0 + BUDGET_C * n * n
+def budget(n, ndb=None):
+    if ndb is None:
+        ndb = _ndb[0]
+    return BUDGET_C0 + BUDGET_C * n * n + BUDGET_DB * ndb
 
 
 class OverBudget(BaseException):
@@ -170,6 +177,27 @@ def innermost_mwlib_frame(tb, recursion=False):
     return "%s:%s" % (frames[-1][0], frames[-1][1])
 
 
+CALL_DEPTH = int(os.environ.get("C01_CALL_DEPTH", "40"))
+
+
+def _frame_depth():
+    f = sys._getframe()
+    n = 0
+    while f is not None:
+        n += 1
+        f = f.f_back
+    return n
+
+
+def _call_at_depth(fn):
+    """Call fn() with exactly CALL_DEPTH Python frames below it.  Where a stack overflow strikes decides whether it escapes (some layers of the
+    parser catch RecursionError and degrade, others do not), so the outcome of a deeply recursing input depends on the caller's stack depth: the
+    search worker, the minimiser and the replay must all call the parser at the same depth to agree on an input."""
+    if _frame_depth() >= CALL_DEPTH:
+        return fn()
+    return _call_at_depth(fn)
+
+
 def run_one(raw, lang, db, scale=1.0):
     """The property's oracle on one input: parse_string returns an Article, raises nothing, and stays within
     the CPU budget (the run is aborted as soon as the budget is exceeded)."""
@@ -185,18 +213,24 @@ def run_one(raw, lang, db, scale=1.0):
     signal.setitimer(signal.ITIMER_VIRTUAL, budget(max(len(raw), _ndb[0])) * scale)
     try:
         try:
-            art = uparser.parse_string(title="t", raw=raw, wikidb=wikidb, lang=lang)
+            art = _call_at_depth(lambda: uparser.parse_string(title="t", raw=raw, wikidb=wikidb, lang=lang))
             if not isinstance(art, nodes.Article):
                 res.update(ok=False, exc="NotAnArticle", frame="uparser.py:parse_string", msg=type(art).__name__)
         finally:
             signal.setitimer(signal.ITIMER_VIRTUAL, 0)
     except OverBudget as e:
         n = max(len(raw), _seen_len[0], _ndb[0])
-        res.update(ok=False, exc="OverBudget", frame=e.where, msg="cpu > %.1f s = %.1f + %.0e*n^2, n=%d" % (budget(n) * scale, BUDGET_C0, BUDGET_C, n))
+        res.update(ok=False, exc="OverBudget", frame=e.where, msg="cpu > %.1f s = %.1f + %.0e*n^2 + %.2f*ndb, n=%d ndb=%d" % (budget(n) * scale, BUDGET_C0, BUDGET_C, BUDGET_DB, n, _ndb[0]))
     except BaseException as e:  # noqa: B902  (SystemExit/KeyboardInterrupt from the parser are failures too)
         signal.setitimer(signal.ITIMER_VIRTUAL, 0)
         res.update(ok=False, exc=type(e).__name__, frame=innermost_mwlib_frame(e.__traceback__, isinstance(e, RecursionError)), msg=str(e)[:200])
     res["cpu"] = round(time.process_time() - t0, 5)
+    if res["exc"] is None and res["cpu"] > budget(max(len(raw), _seen_len[0], _ndb[0])) * scale:
+        # the alarm was raised inside code that swallowed it (or could not be delivered): the budget is exceeded all the same
+        n = max(len(raw), _seen_len[0], _ndb[0])
+        res.update(ok=False, exc="OverBudget", frame="?", msg="cpu %.1f s > %.1f s budget, n=%d" % (res["cpu"], budget(n) * scale, n))
+    res["budget"] = round(budget(max(len(raw), _seen_len[0], _ndb[0])) * scale, 3)
+    res["ndb"] = _ndb[0]
     res["n"] = len(raw)
     res["nexp"] = max(_seen_len[0], _ndb[0], 0)
     res["nest"] = max(_seen_nest[0], c01_gen.nesting(raw))
@@ -262,8 +296,24 @@ def minimise(obj):
         # every probe of a slow input costs a full budget: few, coarse steps only
         raw, steps = ddmin(raw, lambda s: keeps(s, db), max_steps=8)
     else:
-        raw, steps = ddmin(raw, lambda s: keeps(s, db))
+        costly = "RecursionError" in fp          # a probe that reproduces it unwinds a full interpreter stack (~1 s)
+        raw, steps = ddmin(raw, lambda s: keeps(s, db), max_steps=80 if costly else 600)
+        if db:
+            # the pages of the wiki database are part of the input: shrink their texts as well
+            for k in sorted(db):
+                def keeps_val(v, k=k):
+                    d2 = dict(db)
+                    d2[k] = v
+                    return keeps(raw, d2)
+                if len(db[k]) >= 2:
+                    v, st = ddmin(db[k], keeps_val, max_steps=40 if costly else 150)
+                    steps += st
+                    db = dict(db)
+                    db[k] = v
     return {"raw": raw, "db": db, "steps": steps, "reproduced": True}
+
+
+SLOW_CUT = 25
 
 
 def main():
@@ -272,14 +322,26 @@ def main():
         obj = json.loads(sys.stdin.read())
         print(json.dumps(minimise(obj)))
         return
+    slow_seen = {}
+    cut = False
     for line in sys.stdin:
         line = line.strip()
         if not line:
             continue
         c = json.loads(line)
+        if cut:
+            # >= SLOW_CUT inputs of this worker ran into the same over-budget fingerprint (each costs a full budget): the rest is reported as
+            # skipped; the check records that the search was cut short (fail-closed) next to the concrete hits
+            sys.stdout.write(json.dumps({"ok": True, "id": c["id"], "skipped": True, "exc": None, "frame": None, "msg": None, "cpu": 0.0,
+                                         "n": len(c["raw"]), "nexp": 0, "fp": None}) + "\n")
+            continue
         r = run_one(c["raw"], c["lang"], c.get("db"))
         r["id"] = c["id"]
         r["fp"] = fingerprint(r)
+        if r["fp"] and r["fp"].startswith("slow@"):
+            slow_seen[r["fp"]] = slow_seen.get(r["fp"], 0) + 1
+            if slow_seen[r["fp"]] >= SLOW_CUT:
+                cut = True
         sys.stdout.write(json.dumps(r) + "\n")
         sys.stdout.flush()
 
